@@ -212,8 +212,13 @@ func (w *world) check(r *sched.Run) (string, *explore.Violation) {
 func scenarios() []*explore.Scenario {
 	var l []*explore.Scenario
 	// S1: one instance shared by two threads + a second member that campaigns in between.
+	noFunc := uint32(1<<(sched.KFunc+1)-1) &^ uint32(1<<sched.KFunc)
 	mk := func(name string, faults bool, pre, dev int, tiers string, build func(w *world) ([]string, []func())) {
-		l = append(l, &explore.Scenario{Name: name, MaxPre: pre, MaxDev: dev, Tiers: tiers, Setup: func() *explore.Instance {
+		kinds := noFunc
+		if strings.HasPrefix(name, "fn/") {
+			kinds = 0 // function entries of server/id, server/kv, pkg/typeutil, pkg/etcdutil are scheduling points too
+		}
+		l = append(l, &explore.Scenario{Name: name, MaxPre: pre, MaxDev: dev, Tiers: tiers, Opts: sched.Options{Kinds: kinds}, Setup: func() *explore.Instance {
 			w := newWorld(faults)
 			names, th := build(w)
 			return &explore.Instance{Names: names, Threads: th, Check: w.check}
@@ -294,6 +299,27 @@ func scenarios() []*explore.Scenario {
 	}
 	mk("last-id-race+restart", false, 2, 0, "quick", lastID)
 	mk("last-id-race+restart@3", true, 3, 1, "thorough", lastID)
+	// S2d: two allocators of one process that share nothing but code (another cluster root in
+	// the same store): interleaved at function-call granularity, for state that is shared
+	// without any lock (a package-level scratch buffer in a helper, say)
+	twoRoots := func(w *world) ([]string, []func()) {
+		cl := w.st.Client()
+		a := id.NewAllocator(cl, root, "a")
+		w.st.PutDirect("/pd/8/leader", "a")
+		other := id.NewAllocator(cl, "/pd/8", "a")
+		return []string{"a", "other-root"}, []func(){
+			func() { w.alloc("a", a); w.drain("a", a, 999); w.alloc("a", a); w.alloc("a", a) },
+			func() {
+				sched.SetMember(0)
+				for i := 0; i < 2; i++ {
+					_, _ = other.Alloc()
+					_ = other.Rebase()
+				}
+			},
+		}
+	}
+	mk("fn/two-roots", false, 2, 0, "quick", twoRoots)
+	mk("fn/two-roots@3", false, 3, 0, "thorough", twoRoots)
 	// S3: three members, leader record absent for a while.
 	three := func(w *world) ([]string, []func()) {
 		cl := w.st.Client()
